@@ -552,6 +552,7 @@ func runC04(c *core.Ctx, o Options) {
 			c.Check(chans == 3, "F6", "NewAcceptorHandler", "fresh out/incoming/errors channels per handler", nh.Pos(), "3 make(chan)", fmt.Sprintf("%d channels created", chans))
 		}
 	}
+	c.RuleMin = map[string]int{"F1": 3, "F2": 3, "F3": 1, "F4": 6, "F5": 19, "F6": 6, "F7": 2}
 	c.MinObl = 40
 }
 
